@@ -6,15 +6,20 @@
 //!
 //!  a   every sequence of <= N lexemes of a small alphabet, joined by single spaces
 //!  aw  the same sequences inside `feature test { ... } test;` (statement-level grammar)
-//!  b   every string of <= M characters of an 18-character alphabet (the 16 of the design plus
-//!      space and `;`, without which no statement can end)
+//!  b   every string of <= M characters of a 24-character alphabet (the 16 of the design plus
+//!      space and `;`, without which no statement can end, plus NUL, U+0001, DEL, a lone CR,
+//!      U+FEFF and U+2028)
 //!  c   every single edit at every token position of every repo parse/compile test file
+//!      (delete, duplicate, swap, a control character glued to the token, replace by a lexeme)
 //!  d   every include digraph over <= 3 in-memory files, plus include chains around the
 //!      depth limit, through an in-memory `SourceResolver`
 //!  e   every string of <= K characters of {a, b, -, ., \, 1} as the glyph operand of each of a
 //!      few statement templates, each parsed without a glyph map and with each of a few small
 //!      glyph maps (names with hyphens, names that end / start with a hyphen): drives the
 //!      name-or-range disambiguation (`validate_token` / `try_split_range`)
+//!  f   every block skeleton `<opener> <label> { <0-1 statements> } <label'> ;` over the block
+//!      openers and ALL pairs of labels from: ordinary tags, the table and special feature
+//!      tags, every keyword of the lexer (read from its source), escaped names
 //!
 //! `c13 quick|thorough`, `c13 --replay <path>`; `c13 --one <case.json>` is the single-case
 //! subprocess used for classification, shrinking and replay.
@@ -47,9 +52,71 @@ const LEXEMES: [&str; 29] = [
 ];
 
 /// Character alphabet of sub-space b.
-const CHARS: [&str; 18] = [
+const CHARS: [&str; 24] = [
     "a", "A", "-", ".", "\\", "@", "[", "'", "\"", "<", "#", "\n", "0", "\u{e9}", "\u{1F600}", "\t", " ", ";",
+    "\0", "\u{1}", "\u{7f}", "\r", "\u{feff}", "\u{2028}",
 ];
+
+/// Control / invisible characters glued to a token as an edit of sub-space c (quick: the first).
+const CTRL_EDITS: [&str; 6] = ["\0", "\u{1}", "\u{7f}", "\r", "\u{feff}", "\u{2028}"];
+
+/// Block openers of sub-space f; `L` is the opening label.
+const BLOCK_OPENERS: [&str; 8] = [
+    "table L", "anon L", "anonymous L", "lookup L", "feature L", "lookup L useExtension", "conditionset L", "variation L NULL",
+];
+
+/// Labels of sub-space f besides the keywords of the lexer: ordinary tags, the tags of the
+/// tables and features the grammar treats specially, escaped names, a one-letter name.
+const BLOCK_LABELS: [&str; 19] = [
+    "abcd", "a", "BASE", "GDEF", "STAT", "head", "hhea", "OS/2", "vhea", "vmtx", "aalt", "size", "ss01", "cv01",
+    "\\abcd", "\\sub", "\\mark", "\\table", "\\anon",
+];
+
+/// Block bodies of sub-space f (quick: the first two).
+const BLOCK_BODIES: [&str; 6] = ["", "foo;", "sub a by b;", "pos a 0;", "lookupflag 0;", "}"];
+
+/// Second part of sub-space f: statements with two tag operands inside `table BASE { ... } BASE;`,
+/// `X` and `Y` over ALL pairs of labels (tags of every length, keywords, escaped names).
+const TAG_STATEMENTS: [&str; 3] = [
+    "HorizAxis.BaseTagList X Y;",
+    "HorizAxis.BaseTagList ideo romn; HorizAxis.BaseScriptList X Y 0 0;",
+    "HorizAxis.BaseTagList ideo romn; HorizAxis.BaseScriptList latn romn 0 0; HorizAxis.MinMax X Y 0, 0;",
+];
+
+/// Every keyword the lexer knows: the byte-string literals of `Kind::from_keyword`, read from
+/// the source under test (so that a keyword added there is enumerated here).
+fn lexer_keywords() -> Vec<String> {
+    let src = std::fs::read_to_string("/repo/fea-rs/src/parse/lexer/lexeme.rs").unwrap_or_default();
+    let mut out: Vec<String> = vec![];
+    if let Some(at) = src.find("fn from_keyword") {
+        let body = &src[at..];
+        let body = &body[..body.find("\n    }\n").unwrap_or(body.len())];
+        let mut rest = body;
+        while let Some(i) = rest.find("b\"") {
+            rest = &rest[i + 2..];
+            let Some(j) = rest.find('"') else { break };
+            let w = &rest[..j];
+            if !w.is_empty() && !out.iter().any(|x| x == w) {
+                out.push(w.to_string());
+            }
+            rest = &rest[j + 1..];
+        }
+    }
+    if out.len() < 60 {
+        vcore::machinery_error("cannot read the keyword list of the lexer (fea-rs/src/parse/lexer/lexeme.rs, Kind::from_keyword)");
+    }
+    out
+}
+
+fn block_labels() -> Vec<String> {
+    let mut l: Vec<String> = BLOCK_LABELS.iter().map(|x| x.to_string()).collect();
+    for k in lexer_keywords() {
+        if !l.contains(&k) {
+            l.push(k);
+        }
+    }
+    l
+}
 
 /// Character alphabet of the glyph operand of sub-space e.
 const OPERAND_CHARS: [&str; 6] = ["a", "b", "-", ".", "\\", "1"];
@@ -393,12 +460,16 @@ impl Corpus {
     }
     fn file_cases(&self, i: usize) -> u64 {
         let t = self.files[i].toks.len() as u64;
-        let base = 1 + t + t + t.saturating_sub(1);
+        let base = 1 + t + t + t.saturating_sub(1) + t * self.nctrl();
         if self.all_ops {
             base + t * LEXEMES.len() as u64
         } else {
             base
         }
+    }
+    /// control characters tried after every token
+    fn nctrl(&self) -> u64 {
+        if self.all_ops { CTRL_EDITS.len() as u64 } else { 1 }
     }
     fn total(&self) -> u64 {
         *self.starts.last().unwrap_or(&0)
@@ -445,8 +516,14 @@ impl Corpus {
                 let (u, v) = (f.toks[p as usize], f.toks[p as usize + 1]);
                 desc = format!("{} swap tokens {p},{} {:?} {:?}", f.rel, p + 1, units[u], units[v]);
                 units.swap(u, v);
-            } else {
+            } else if k < 3 * t - 1 + t * self.nctrl() {
                 let r = k - (3 * t - 1);
+                let (p, c) = (r / self.nctrl(), CTRL_EDITS[(r % self.nctrl()) as usize]);
+                let u = f.toks[p as usize];
+                desc = format!("{} glue {c:?} to token {p} {:?}", f.rel, units[u]);
+                units[u].push_str(c);
+            } else {
+                let r = k - (3 * t - 1) - t * self.nctrl();
                 let p = r / LEXEMES.len() as u64;
                 let l = LEXEMES[(r % LEXEMES.len() as u64) as usize];
                 let u = f.toks[p as usize];
@@ -490,6 +567,7 @@ enum Space {
     Edits(Corpus),
     Graphs { max_depth: usize },
     Operand { k: usize },
+    Blocks { labels: Vec<String>, bodies: usize },
 }
 
 fn pow_sum(base: u64, n: usize) -> u64 {
@@ -528,6 +606,7 @@ impl Space {
             Space::Edits(_) => "c",
             Space::Graphs { .. } => "d",
             Space::Operand { .. } => "e",
+            Space::Blocks { .. } => "f",
         }
     }
     fn arg(&self) -> String {
@@ -537,6 +616,7 @@ impl Space {
             Space::Edits(c) => (c.all_ops as u8).to_string(),
             Space::Graphs { max_depth } => max_depth.to_string(),
             Space::Operand { k } => k.to_string(),
+            Space::Blocks { bodies, .. } => bodies.to_string(),
         }
     }
     fn from_worker(name: &str, arg: &str) -> Space {
@@ -547,6 +627,7 @@ impl Space {
             "b" => Space::Chars { m: n },
             "c" => Space::Edits(Corpus::load(n != 0)),
             "e" => Space::Operand { k: n },
+            "f" => Space::Blocks { labels: block_labels(), bodies: n },
             _ => Space::Graphs { max_depth: n },
         }
     }
@@ -557,6 +638,7 @@ impl Space {
             Space::Edits(c) => c.total(),
             Space::Graphs { max_depth } => 512 * GRAPH_VARIANTS + 2 * (*max_depth as u64 + 2),
             Space::Operand { k } => pow_sum(OPERAND_CHARS.len() as u64, *k) * OPERAND_TEMPLATES.len() as u64,
+            Space::Blocks { labels, bodies } => ((BLOCK_OPENERS.len() * bodies + TAG_STATEMENTS.len()) * labels.len() * labels.len()) as u64,
         }
     }
     fn case(&self, idx: u64) -> Case {
@@ -581,6 +663,22 @@ impl Space {
                 k
             }
             Space::Graphs { max_depth } => graph_case(idx, *max_depth),
+            Space::Blocks { labels, bodies } => {
+                let (nl, nb) = (labels.len() as u64, *bodies as u64);
+                let skeletons = BLOCK_OPENERS.len() as u64 * nb * nl * nl;
+                if idx >= skeletons {
+                    let r = idx - skeletons;
+                    let (x, y) = (&labels[((r / nl) % nl) as usize], &labels[(r % nl) as usize]);
+                    let st = TAG_STATEMENTS[(r / nl / nl) as usize].replacen('X', x, 1).replacen(" Y", &format!(" {y}"), 1);
+                    return Case::plain(format!("table BASE {{ {st} }} BASE;"));
+                }
+                let body = BLOCK_BODIES[(idx % nb) as usize];
+                let close = &labels[((idx / nb) % nl) as usize];
+                let open = &labels[((idx / nb / nl) % nl) as usize];
+                let opener = BLOCK_OPENERS[(idx / nb / nl / nl) as usize];
+                let sep = if body.is_empty() { "" } else { " " };
+                Case::plain(format!("{} {{ {body}{sep}}} {close};", opener.replacen(" L", &format!(" {open}"), 1)))
+            }
             Space::Operand { .. } => {
                 let nt = OPERAND_TEMPLATES.len() as u64;
                 let operand = operand_of(idx);
@@ -2422,6 +2520,7 @@ fn main() {
     let spaces = vec![
         Space::Graphs { max_depth },
         Space::Operand { k: k_e },
+        Space::Blocks { labels: block_labels(), bodies: tier.pick(2, BLOCK_BODIES.len()) },
         Space::Edits(Corpus::load(tier == Tier::Thorough)),
         Space::Chars { m: m_b },
         Space::Seq { n: n_aw, wrapped: true },
@@ -2690,7 +2789,7 @@ fn main() {
             Space::Edits(c) => {
                 o["files"] = json!(c.files.len());
                 o["token_positions"] = json!(c.tokens());
-                o["edits"] = json!(if c.all_ops { "none, delete, duplicate, swap-adjacent, replace by each of the 29 lexemes" } else { "none, delete, duplicate, swap-adjacent" });
+                o["edits"] = json!(if c.all_ops { "none, delete, duplicate, swap-adjacent, glue each of NUL U+0001 DEL CR U+FEFF U+2028 to the token, replace by each of the 29 lexemes" } else { "none, delete, duplicate, swap-adjacent, glue NUL to the token" });
             }
             Space::Operand { k } => {
                 o["max_operand_chars"] = json!(k);
@@ -2698,6 +2797,14 @@ fn main() {
                 o["operands"] = json!(pow_sum(OPERAND_CHARS.len() as u64, *k));
                 o["templates"] = json!(OPERAND_TEMPLATES);
                 o["glyph_maps"] = json!(maps_tag(&Some(operand_maps())));
+            }
+            Space::Blocks { labels, bodies } => {
+                o["openers"] = json!(BLOCK_OPENERS);
+                o["labels"] = json!(labels);
+                o["label_pairs"] = json!(labels.len() * labels.len());
+                o["bodies"] = json!(&BLOCK_BODIES[..*bodies]);
+                o["form"] = json!("<opener with label L> { <body> } <label'>;");
+                o["tag_statements_in_table_BASE"] = json!(TAG_STATEMENTS);
             }
             Space::Graphs { max_depth } => {
                 o["digraphs"] = json!(512);
@@ -2733,7 +2840,7 @@ fn main() {
     }
     rep.set("name_or_range_totals", json!(nor));
     rep.set("distinct_nontrivial", nontrivial);
-    rep.set("rule", "every input of a, aw, b, c, d is parsed twice (without and with a glyph map), every input of e five times (glyph maps {a,b}, {a,b,a-b}, {a,b,a-,-a}, a larger one with a-b, b-a, a-, -a, a.b, a1, a-a-a and CIDs, and without one); a tree parsed with the glyph map (fea-rs/test-data/simple_glyph_order.txt plus a-b, a-b-c, 0, s, test, é) and free of errors is validated with that map, one parsed without is validated with an empty map and with that map. Non-trivial = the tree parsed without a glyph map has a child node of the root not flagged as error, or at least 2 tokens that are not whitespace/comment. Distinct: a and aw inputs are distinct by construction (injective decoding, aw has a wrapper no a-string has); b strings that are empty or a single a-lexeme are not counted; c and d inputs are counted by the 64-bit hash of their text(s), and c texts that also occur in a or b are not counted; e inputs are distinct by construction (template x operand, no a/aw/b text has their form) and count as non-trivial when the tree parsed without a glyph map has a GlyphNameOrRange token or some tree has a GlyphRange node. name_or_range counters: every GlyphNameOrRange token of the tree parsed without a glyph map, per run with a glyph map, is judged by the oracle's own model of the rule (known name: one GlyphName token; exactly one cut at a hyphen into two known names: GlyphRange node of name, hyphen, name spelling the token; otherwise unchanged under an error diagnostic) and every other token must be identical with and without the glyph map");
+    rep.set("rule", "every input of a, aw, b, c, d, f is parsed twice (without and with a glyph map), every input of e five times (glyph maps {a,b}, {a,b,a-b}, {a,b,a-,-a}, a larger one with a-b, b-a, a-, -a, a.b, a1, a-a-a and CIDs, and without one); a tree parsed with the glyph map (fea-rs/test-data/simple_glyph_order.txt plus a-b, a-b-c, 0, s, test, é) and free of errors is validated with that map, one parsed without is validated with an empty map and with that map. Non-trivial = the tree parsed without a glyph map has a child node of the root not flagged as error, or at least 2 tokens that are not whitespace/comment. Distinct: a and aw inputs are distinct by construction (injective decoding, aw has a wrapper no a-string has); b strings that are empty or a single a-lexeme are not counted; c and d inputs are counted by the 64-bit hash of their text(s), and c texts that also occur in a or b are not counted; f inputs (block skeletons of at least 6 tokens without the aw wrapper) are distinct by construction; e inputs are distinct by construction (template x operand, no a/aw/b text has their form) and count as non-trivial when the tree parsed without a glyph map has a GlyphNameOrRange token or some tree has a GlyphRange node. name_or_range counters: every GlyphNameOrRange token of the tree parsed without a glyph map, per run with a glyph map, is judged by the oracle's own model of the rule (known name: one GlyphName token; exactly one cut at a hyphen into two known names: GlyphRange node of name, hyphen, name spelling the token; otherwise unchanged under an error diagnostic) and every other token must be identical with and without the glyph map");
     rep.set("spaces", Value::Object(per_space));
     rep.set("samples", samples);
     rep.set("exhaustive", exhaustive);
